@@ -1,6 +1,666 @@
 package main
 
-// tryReplay: model -> in-package Go test against the real code (filled in below).
-func tryReplay(vc *VC, o *Obligation, rep map[string]any) bool {
+// Replay of a refuted obligation against the real code: the solver's model supplies the inputs,
+// an in-package test (injected with `go test -overlay`, nothing is written into /repo) runs the real
+// function, and the observed outputs are compared with the outputs the model predicts. Because the
+// violated clause is false on the predicted outputs, agreement confirms the violation on the real code.
+
+import (
+	"bytes"
+	"context"
+	"encoding/json"
+	"fmt"
+	"go/types"
+	"math/big"
+	"os"
+	"os/exec"
+	"path/filepath"
+	"regexp"
+	"sort"
+	"strconv"
+	"strings"
+	"time"
+)
+
+type ioLeaf struct {
+	Name string // e.g. "t.sec", "result0.nsec", "*pkt.LVM"
+	T    *Term
+}
+
+type ReplayInfo struct {
+	Fn      *FuncInfo
+	Lemma   *Lemma
+	Params  []replayParam
+	Outputs []ioLeaf
+	Results []Value
+	Panics  bool // safety obligation: expected behaviour is a panic
+	Hang    bool
+}
+
+type replayParam struct {
+	Name string
+	T    types.Type
+	V    Value
+	Heap *State // entry state (for pointees and slice contents)
+	Recv bool
+}
+
+const replaySliceMax = 2048
+
+// modelValue parses an SMT-LIB value into a Go literal string for the given sort.
+func parseModelInt(s string) (*big.Int, bool) {
+	s = strings.TrimSpace(s)
+	neg := false
+	if strings.HasPrefix(s, "(-") {
+		neg = true
+		s = strings.TrimSpace(strings.TrimSuffix(strings.TrimPrefix(s, "(-"), ")"))
+	}
+	if strings.HasPrefix(s, "#x") {
+		v, ok := new(big.Int).SetString(s[2:], 16)
+		return v, ok
+	}
+	if strings.HasPrefix(s, "#b") {
+		v, ok := new(big.Int).SetString(s[2:], 2)
+		return v, ok
+	}
+	if strings.HasPrefix(s, "(_ bv") {
+		f := strings.Fields(strings.Trim(s, "()"))
+		v, ok := new(big.Int).SetString(strings.TrimPrefix(f[1], "bv"), 10)
+		return v, ok
+	}
+	v, ok := new(big.Int).SetString(s, 10)
+	if ok && neg {
+		v.Neg(v)
+	}
+	return v, ok
+}
+
+var reFP = regexp.MustCompile(`\(fp\s+#b([01])\s+#b([01]{11})\s+#[bx]([0-9a-fA-F]+)\)`)
+
+func parseModelFP(s string) (uint64, bool) {
+	s = strings.TrimSpace(s)
+	if m := reFP.FindStringSubmatch(s); m != nil {
+		sign, _ := strconv.ParseUint(m[1], 2, 64)
+		exp, _ := strconv.ParseUint(m[2], 2, 64)
+		var man uint64
+		if len(m[3]) == 52 {
+			man, _ = strconv.ParseUint(m[3], 2, 64)
+		} else {
+			man, _ = strconv.ParseUint(m[3], 16, 64)
+		}
+		return sign<<63 | exp<<52 | man, true
+	}
+	switch {
+	case strings.Contains(s, "+zero"):
+		return 0, true
+	case strings.Contains(s, "-zero"):
+		return 1 << 63, true
+	case strings.Contains(s, "+oo"):
+		return 0x7ff0000000000000, true
+	case strings.Contains(s, "-oo"):
+		return 0xfff0000000000000, true
+	case strings.Contains(s, "NaN"):
+		return 0x7ff8000000000001, true
+	}
+	return 0, false
+}
+
+type modelEval struct {
+	facts []*Term
+	goal  *Term
+	cache map[string]string
+}
+
+// values asks the solver for concrete values of the given terms in a model of facts /\ not goal.
+func (m *modelEval) values(ts []*Term, pin []*Term) ([]string, bool) {
+	facts := append(append([]*Term{}, m.facts...), pin...)
+	for _, mode := range []Mode{ModeInt, ModeBV} {
+		script, err := buildScript(mode, facts, m.goal, ts, false)
+		if err != nil {
+			continue
+		}
+		for _, sp := range solvers[:2] {
+			r := runOne(contextBackground(), sp, mode, script, 30*time.Second)
+			if r.Status == "sat" && len(r.Values) == len(ts) {
+				return r.Values, true
+			}
+			if r.Status == "unsat" {
+				return nil, false
+			}
+		}
+	}
+	return nil, false
+}
+
+func (vc *VC) qualifierPkgName(imports map[string]bool, self *types.Package) types.Qualifier {
+	return func(p *types.Package) string {
+		if p == self {
+			return ""
+		}
+		imports[p.Path()] = true
+		return p.Name()
+	}
+}
+
+// goLiteral renders a Go expression constructing the value v (of type t) from model leaf values.
+type litBuilder struct {
+	vc      *VC
+	self    *types.Package
+	imports map[string]bool
+	get     func(t *Term) (string, bool) // model value of a scalar term
+	entry   *State
+	pre     []string // statements to emit before use
+	n       int
+	ok      bool
+	why     string
+	objs    map[string]string // (type|ref) -> variable name
+}
+
+func (b *litBuilder) fail(why string) string {
+	if b.ok {
+		b.ok = false
+		b.why = why
+	}
+	return "nil"
+}
+
+func (b *litBuilder) typeStr(t types.Type) string {
+	return types.TypeString(t, b.vc.qualifierPkgName(b.imports, b.self))
+}
+
+func (b *litBuilder) scalar(t types.Type, x *Term) string {
+	val, ok := b.get(x)
+	if !ok {
+		return b.fail("no model value for " + x.short())
+	}
+	switch x.Sort.K {
+	case SBool:
+		return strings.TrimSpace(val)
+	case SGoInt, SMath:
+		v, ok := parseModelInt(val)
+		if !ok {
+			return b.fail("cannot parse " + val)
+		}
+		if x.Sort.K == SGoInt {
+			v = wrapBig(v, x.Sort)
+		}
+		return fmt.Sprintf("%s(%s)", b.typeStr(t), v.String())
+	case SFP:
+		bits, ok := parseModelFP(val)
+		if !ok {
+			return b.fail("cannot parse float " + val)
+		}
+		b.imports["math"] = true
+		return fmt.Sprintf("%s(math.Float64frombits(%#x))", b.typeStr(t), bits)
+	}
+	return b.fail("unsupported scalar sort " + x.Sort.String())
+}
+
+func (b *litBuilder) intVal(x *Term) (int64, bool) {
+	val, ok := b.get(x)
+	if !ok {
+		return 0, false
+	}
+	v, ok := parseModelInt(val)
+	if !ok {
+		return 0, false
+	}
+	if x.Sort.K == SGoInt {
+		v = wrapBig(v, x.Sort)
+	}
+	if !v.IsInt64() {
+		return 0, false
+	}
+	return v.Int64(), true
+}
+
+func (b *litBuilder) lit(v Value) string {
+	t := v.T
+	if isTime(t) {
+		b.imports["time"] = true
+		s, ok1 := b.intVal(v.L[".sec"])
+		n, ok2 := b.intVal(v.L[".nsec"])
+		if !ok1 || !ok2 {
+			return b.fail("time value")
+		}
+		return fmt.Sprintf("time.Unix(%d, %d).UTC()", s, n)
+	}
+	switch u := t.Underlying().(type) {
+	case *types.Basic:
+		if u.Kind() == types.String {
+			return b.fail("string input")
+		}
+		if u.Kind() == types.UnsafePointer {
+			return b.fail("unsafe pointer input")
+		}
+		return b.scalar(t, v.scalar())
+	case *types.Struct:
+		var fs []string
+		for i := 0; i < u.NumFields(); i++ {
+			f := u.Field(i)
+			if !f.Exported() && f.Pkg() != b.self {
+				return b.fail("unexported field of foreign struct " + t.String())
+			}
+			fs = append(fs, f.Name()+": "+b.lit(v.field("."+f.Name(), f.Type())))
+		}
+		return b.typeStr(t) + "{" + strings.Join(fs, ", ") + "}"
+	case *types.Array:
+		if u.Len() > 256 {
+			return b.fail("large array")
+		}
+		var es []string
+		for i := int64(0); i < u.Len(); i++ {
+			es = append(es, b.lit(v.index(u.Elem(), mkInt(sortInt, i))))
+		}
+		return b.typeStr(t) + "{" + strings.Join(es, ", ") + "}"
+	case *types.Pointer:
+		if v.Loc != nil {
+			return b.fail("static pointer input")
+		}
+		ref, ok := b.intVal(v.scalar())
+		if !ok {
+			return b.fail("pointer value")
+		}
+		if ref == 0 {
+			return "nil"
+		}
+		key := typeKey(u.Elem()) + "|" + fmt.Sprint(ref)
+		if name, ok := b.objs[key]; ok {
+			return "&" + name
+		}
+		b.n++
+		name := fmt.Sprintf("obj%d", b.n)
+		b.objs[key] = name
+		pointee := b.entry.readObj(u.Elem(), v.scalar())
+		b.pre = append(b.pre, fmt.Sprintf("%s := %s", name, b.lit(pointee)))
+		return "&" + name
+	case *types.Slice:
+		ref, ok0 := b.intVal(v.L[".ref"])
+		ln, ok1 := b.intVal(v.L[".len"])
+		cp, ok2 := b.intVal(v.L[".cap"])
+		if !ok0 || !ok1 || !ok2 {
+			return b.fail("slice header")
+		}
+		if ref == 0 {
+			return b.typeStr(t) + "(nil)"
+		}
+		if cp > replaySliceMax || ln > cp || ln < 0 {
+			return b.fail(fmt.Sprintf("slice too large for replay (len %d cap %d)", ln, cp))
+		}
+		b.n++
+		name := fmt.Sprintf("sl%d", b.n)
+		b.pre = append(b.pre, fmt.Sprintf("%s := make(%s, %d, %d)", name, b.typeStr(t), ln, cp))
+		for i := int64(0); i < ln; i++ {
+			ev := b.entry.readElem(u.Elem(), v.L[".ref"], idxAdd(v.L[".off"], mkInt(sortInt, i)))
+			b.pre = append(b.pre, fmt.Sprintf("%s[%d] = %s", name, i, b.lit(ev)))
+		}
+		return name
+	case *types.Interface:
+		ref, ok := b.intVal(v.scalar())
+		if ok && ref == 0 {
+			return "nil"
+		}
+		return b.fail("non-nil interface input")
+	}
+	return b.fail("unsupported input type " + t.String())
+}
+
+// outLeaves: printable leaves of a result value: returns (go expression, term) pairs
+func outExprs(prefix string, t types.Type, v Value) ([]string, []*Term, bool) {
+	if isTime(t) {
+		return []string{prefix + ".Unix()", "int64(" + prefix + ".Nanosecond())"}, []*Term{v.L[".sec"], v.L[".nsec"]}, true
+	}
+	switch u := t.Underlying().(type) {
+	case *types.Basic:
+		if u.Kind() == types.String || u.Kind() == types.UnsafePointer {
+			return nil, nil, true // not compared
+		}
+		x := v.scalar()
+		switch x.Sort.K {
+		case SFP:
+			return []string{"math.Float64bits(float64(" + prefix + "))"}, []*Term{x}, true
+		case SBool:
+			return []string{prefix}, []*Term{x}, true
+		default:
+			if x.Sort.Signed {
+				return []string{"int64(" + prefix + ")"}, []*Term{x}, true
+			}
+			return []string{"uint64(" + prefix + ")"}, []*Term{x}, true
+		}
+	case *types.Struct:
+		var es []string
+		var ts []*Term
+		for i := 0; i < u.NumFields(); i++ {
+			f := u.Field(i)
+			e, tt, ok := outExprs(prefix+"."+f.Name(), f.Type(), v.field("."+f.Name(), f.Type()))
+			if !ok {
+				return nil, nil, false
+			}
+			es = append(es, e...)
+			ts = append(ts, tt...)
+		}
+		return es, ts, true
+	case *types.Array:
+		if u.Len() > 64 {
+			return nil, nil, true
+		}
+		var es []string
+		var ts []*Term
+		for i := int64(0); i < u.Len(); i++ {
+			e, tt, ok := outExprs(fmt.Sprintf("%s[%d]", prefix, i), u.Elem(), v.index(u.Elem(), mkInt(sortInt, i)))
+			if !ok {
+				return nil, nil, false
+			}
+			es = append(es, e...)
+			ts = append(ts, tt...)
+		}
+		return es, ts, true
+	case *types.Interface:
+		// only nil-ness is compared
+		return []string{"(" + prefix + " == nil)"}, []*Term{mkEq(v.scalar(), mkInt(sortRef, 0))}, true
+	case *types.Slice:
+		return []string{"int64(len(" + prefix + "))"}, []*Term{v.L[".len"]}, true
+	case *types.Pointer, *types.Map, *types.Chan, *types.Signature:
+		return nil, nil, true
+	}
+	return nil, nil, false
+}
+
+const replaySep = "\n--- output ---\n"
+
+func replayOutput(s string) string {
+	if i := strings.Index(s, replaySep); i >= 0 {
+		return s[i+len(replaySep):]
+	}
+	return s
+}
+
+func runReplayTest(pkgDir, pkgName, body string, imports map[string]bool, withTag bool) (string, error) {
+	dir, err := os.MkdirTemp("", "govc-replay-*")
+	if err != nil {
+		return "", err
+	}
+	defer os.RemoveAll(dir)
+	var imps []string
+	imports["testing"] = true
+	imports["fmt"] = true
+	for p := range imports {
+		imps = append(imps, strconv.Quote(p))
+	}
+	sort.Strings(imps)
+	src := "package " + pkgName + "\n\nimport (\n\t" + strings.Join(imps, "\n\t") + "\n)\n\n" + body
+	tf := filepath.Join(dir, "replay_test.go")
+	os.WriteFile(tf, []byte(src), 0o644)
+	ov := map[string]any{"Replace": map[string]string{filepath.Join(pkgDir, "zz_govc_replay_test.go"): tf}}
+	ob, _ := json.Marshal(ov)
+	of := filepath.Join(dir, "ov.json")
+	os.WriteFile(of, ob, 0o644)
+	args := []string{"test", "-overlay", of, "-vet=off", "-count=1", "-timeout", "60s", "-run", "^TestGovcReplay$", "-v"}
+	if withTag {
+		args = append(args, "-tags", "verif")
+	}
+	args = append(args, ".")
+	cmd := exec.Command("go", args...)
+	cmd.Dir = pkgDir
+	env := []string{}
+	for _, e := range os.Environ() {
+		if strings.HasPrefix(e, "GOFLAGS=") || strings.HasPrefix(e, "GOPROXY=") {
+			continue
+		}
+		env = append(env, e)
+	}
+	cmd.Env = append(env, "GOFLAGS=-mod=mod", "GOPROXY=off")
+	var out bytes.Buffer
+	cmd.Stdout = &out
+	cmd.Stderr = &out
+	done := make(chan error, 1)
+	go func() { done <- cmd.Run() }()
+	select {
+	case <-done:
+	case <-time.After(150 * time.Second):
+		cmd.Process.Kill()
+		return src + "\n--- output ---\n" + out.String() + "\n(killed after 150 s)", fmt.Errorf("timeout")
+	}
+	return src + "\n--- output ---\n" + out.String(), nil
+}
+
+// tryReplay: returns true iff the real code reproduces the violation.
+func tryReplay(vc *VC, o *Obligation, rep map[string]any) (confirmed bool) {
+	defer func() {
+		if r := recover(); r != nil {
+			rep["replay_error"] = fmt.Sprint(r)
+			confirmed = false
+		}
+	}()
+	ri := o.Replay
+	if ri == nil {
+		rep["replay"] = "no replay information for this kind of obligation"
+		return false
+	}
+	facts := append(strConstFacts(), o.Facts...)
+	me := &modelEval{facts: facts, goal: o.Goal}
+	// collect scalar terms needed: two rounds (headers first, then contents) are folded into one by asking lazily
+	known := map[*Term]string{}
+	var pins []*Term
+	get := func(t *Term) (string, bool) {
+		if t.isConst() {
+			switch t.Sort.K {
+			case SBool:
+				return fmt.Sprint(t.B), true
+			case SFP:
+				return fpLit(t.F), true
+			default:
+				return intLit(t.Val), true
+			}
+		}
+		if v, ok := known[t]; ok {
+			return v, true
+		}
+		vals, ok := me.values([]*Term{t}, pins)
+		if !ok {
+			return "", false
+		}
+		known[t] = vals[0]
+		// pin the value so that later queries stay within the same model
+		if t.Sort.K == SGoInt || t.Sort.K == SMath {
+			if bi, ok := parseModelInt(vals[0]); ok {
+				if t.Sort.K == SGoInt {
+					bi = wrapBig(bi, t.Sort)
+				}
+				pins = append(pins, mkEq(t, mkIntBig(t.Sort, bi)))
+			}
+		} else if t.Sort.K == SBool {
+			pins = append(pins, mkEq(t, mkBool(strings.TrimSpace(vals[0]) == "true")))
+		}
+		return vals[0], true
+	}
+	imports := map[string]bool{}
+	if ri.Lemma != nil {
+		return replayLemma(vc, o, ri, rep, get, imports)
+	}
+	fi := ri.Fn
+	b := &litBuilder{vc: vc, self: fi.Pkg.Types, imports: imports, get: get, ok: true, objs: map[string]string{}}
+	var args []string
+	recv := ""
+	for _, p := range ri.Params {
+		b.entry = p.Heap
+		l := b.lit(p.V)
+		if p.Recv {
+			recv = l
+		} else {
+			args = append(args, l)
+		}
+	}
+	if !b.ok {
+		rep["replay"] = "inputs cannot be constructed for replay: " + b.why
+		return false
+	}
+	sig := fi.Obj.Type().(*types.Signature)
+	var body strings.Builder
+	body.WriteString("func TestGovcReplay(govcT *testing.T) {\n")
+	for _, s := range b.pre {
+		body.WriteString("\t" + s + "\n")
+	}
+	body.WriteString("\tdefer func() {\n\t\tif r := recover(); r != nil {\n\t\t\tfmt.Println(\"GOVC-PANIC\", r)\n\t\t}\n\t}()\n")
+	var resNames []string
+	for i := 0; i < sig.Results().Len(); i++ {
+		resNames = append(resNames, fmt.Sprintf("r%d", i))
+	}
+	callee := fi.Obj.Name()
+	if recv != "" {
+		body.WriteString("\trecv := " + recv + "\n")
+		callee = "recv." + callee
+	}
+	callS := callee + "(" + strings.Join(args, ", ") + ")"
+	if sig.Variadic() && len(args) > 0 {
+		callS = callee + "(" + strings.Join(args, ", ") + "...)"
+	}
+	if len(resNames) > 0 {
+		body.WriteString("\t" + strings.Join(resNames, ", ") + " := " + callS + "\n")
+	} else {
+		body.WriteString("\t" + callS + "\n")
+	}
+	var outTerms []*Term
+	k := 0
+	for i := range resNames {
+		if i >= len(ri.Results) {
+			break
+		}
+		es, ts, ok := outExprs(resNames[i], sig.Results().At(i).Type(), ri.Results[i])
+		if !ok {
+			continue
+		}
+		for j, e := range es {
+			if strings.Contains(e, "math.") {
+				imports["math"] = true
+			}
+			fmt.Fprintf(&body, "\tfmt.Println(\"GOVC-OUT\", %d, %s)\n", k, e)
+			outTerms = append(outTerms, ts[j])
+			k++
+		}
+	}
+	for _, r := range resNames {
+		body.WriteString("\t_ = " + r + "\n")
+	}
+	body.WriteString("\tfmt.Println(\"GOVC-RETURNED\")\n}\n")
+	out, err := runReplayTest(filepath.Dir(vc.fset.Position(fi.Decl.Pos()).Filename), fi.Pkg.Types.Name(), body.String(), imports, strings.HasSuffix(vc.fset.Position(fi.Decl.Pos()).Filename, "contracts_verif.go"))
+	rep["replay_test"] = out
+	out = replayOutput(out)
+	if err != nil {
+		rep["replay"] = "replay run failed: " + err.Error()
+		if ri.Hang {
+			rep["replay"] = "real code did not terminate within the replay timeout (hang reproduced)"
+			return true
+		}
+		return false
+	}
+	panicked := strings.Contains(out, "GOVC-PANIC") || strings.Contains(out, "panic:")
+	if strings.HasPrefix(o.Kind, "safety") || o.Kind == "panic-declared" || o.Kind == "callee-panics" {
+		if panicked {
+			rep["replay"] = "real code panics on the model's input"
+			return true
+		}
+		rep["replay"] = "real code did not panic on the model's input (model not reproduced)"
+		return false
+	}
+	if panicked {
+		rep["replay"] = "real code panicked while the violated clause is about a normal return"
+		return o.Kind == "panics-iff"
+	}
+	if !strings.Contains(out, "GOVC-RETURNED") {
+		rep["replay"] = "replay test did not complete (compile error?)"
+		return false
+	}
+	// compare observed with predicted outputs
+	obs := map[int]string{}
+	for _, ln := range strings.Split(out, "\n") {
+		f := strings.Fields(ln)
+		if len(f) == 3 && f[0] == "GOVC-OUT" {
+			i, _ := strconv.Atoi(f[1])
+			obs[i] = f[2]
+		}
+	}
+	var diffs []string
+	for i, t := range outTerms {
+		pv, ok := get(t)
+		if !ok {
+			diffs = append(diffs, fmt.Sprintf("output %d: no predicted value", i))
+			continue
+		}
+		var want string
+		switch t.Sort.K {
+		case SBool:
+			want = strings.TrimSpace(pv)
+		case SFP:
+			bits, _ := parseModelFP(pv)
+			want = fmt.Sprint(bits)
+		default:
+			bi, _ := parseModelInt(pv)
+			if t.Sort.K == SGoInt {
+				bi = wrapBig(bi, t.Sort)
+			}
+			want = bi.String()
+		}
+		if obs[i] != want {
+			diffs = append(diffs, fmt.Sprintf("output %d: real code %s, model %s", i, obs[i], want))
+		}
+	}
+	if len(diffs) > 0 {
+		rep["replay"] = "real code does not behave as the model predicts: " + strings.Join(diffs, "; ")
+		return false
+	}
+	rep["replay"] = fmt.Sprintf("real code returns exactly the %d output values of the counterexample, on which the clause is false", len(outTerms))
+	return true
+}
+
+// replayLemma: the ensures expressions are Go expressions over the real functions; evaluate them on the model's inputs.
+func replayLemma(vc *VC, o *Obligation, ri *ReplayInfo, rep map[string]any, get func(*Term) (string, bool), imports map[string]bool) bool {
+	l := ri.Lemma
+	p := vc.pkgs[l.Pkg]
+	for _, e := range l.Ensures {
+		if strings.Contains(e, "mathint") || strings.Contains(e, "forall") || strings.Contains(e, "==>") || strings.Contains(e, "exists") || strings.Contains(e, "floor") {
+			rep["replay"] = "lemma conclusion is not an executable Go expression"
+			return false
+		}
+	}
+	b := &litBuilder{vc: vc, self: p.Types, imports: imports, get: get, ok: true, objs: map[string]string{}}
+	var body strings.Builder
+	body.WriteString("func TestGovcReplay(govcT *testing.T) {\n")
+	var decls []string
+	for _, rp := range ri.Params {
+		b.entry = rp.Heap
+		decls = append(decls, fmt.Sprintf("\t%s := %s\n\t_ = %s\n", rp.Name, b.lit(rp.V), rp.Name))
+	}
+	if !b.ok {
+		rep["replay"] = "inputs cannot be constructed for replay: " + b.why
+		return false
+	}
+	for _, s := range b.pre {
+		body.WriteString("\t" + s + "\n")
+	}
+	for _, d := range decls {
+		body.WriteString(d)
+	}
+	for i, e := range l.Ensures {
+		fmt.Fprintf(&body, "\tfmt.Println(\"GOVC-ENS\", %d, %s)\n", i, e)
+	}
+	body.WriteString("\tfmt.Println(\"GOVC-RETURNED\")\n}\n")
+	out, err := runReplayTest(filepath.Dir(l.File), p.Types.Name(), body.String(), imports, true)
+	rep["replay_test"] = out
+	out = replayOutput(out)
+	if err != nil || !strings.Contains(out, "GOVC-RETURNED") {
+		rep["replay"] = "replay run failed"
+		return false
+	}
+	for _, ln := range strings.Split(out, "\n") {
+		f := strings.Fields(ln)
+		if len(f) == 3 && f[0] == "GOVC-ENS" && f[2] == "false" {
+			rep["replay"] = "conclusion #" + f[1] + " of the lemma evaluates to false on the real functions for the model's input"
+			return true
+		}
+	}
+	rep["replay"] = "all conclusions evaluate to true on the real functions for the model's input (model not reproduced)"
 	return false
 }
+
+func contextBackground() context.Context { return context.Background() }
